@@ -5,7 +5,7 @@
     Same conventions as Props.v: [exact] of a lemma proved elsewhere + Print Assumptions. *)
 From Coq Require Import Ascii String List Bool Arith ZArith QArith.
 From PTBase Require Import Exn PyStr.
-From P Require Import Lib Transfer Wf MapProofs MapThms InconProofs Witness IdIncon MapFns Witness3.
+From P Require Import Lib Transfer Wf MapProofs MapThms InconProofs Witness IdIncon MapFns Witness3 Glue.
 Import ListNotations.
 Close Scope Q_scope.
 
@@ -81,3 +81,33 @@ Theorem incon_transfer_total_nonuniform_example :
               dget (s2l "  c 2") new = Ok (mkB [13 # 1; 24 # 1]%Q None None).
 Proof. exact total_avg_hyps_sat. Qed.
 Print Assumptions incon_transfer_total_nonuniform_example.
+
+(** ** glue between the entry points *)
+(** the second dictionary returned by block_mapping(geo, True) is column_mapping(geo)'s (so
+    column_mapping_spec describes it), and the block dictionary is one map_block step per block of the
+    target's block_name_list with that dictionary and layer_mapping(geo)'s; no well-formedness assumed *)
+Theorem block_mapping_returns_column_mapping : forall nearest self geo m cm,
+  block_mapping nearest self geo = Ok (m, cm) ->
+  column_mapping nearest self geo = Ok cm /\
+  exists lm, layer_mapping self geo = Ok lm /\ mapM (map_block self geo cm lm) (block_name_list geo) = Ok m.
+Proof. exact block_mapping_cm. Qed.
+Print Assumptions block_mapping_returns_column_mapping.
+(** t2incon.transfer_from given the two dictionaries of sourcegeo.block_mapping(geo, True) explicitly
+    returns (or raises) exactly what it does with its default mapping arguments: any source object, any
+    geometries *)
+Theorem incon_transfer_explicit_equals_default : forall nearest sinc src geo mc,
+  block_mapping nearest src geo = Ok mc ->
+  incon_transfer nearest (Some mc) sinc src geo = incon_transfer nearest None sinc src geo.
+Proof. exact incon_explicit_default. Qed.
+Print Assumptions incon_transfer_explicit_equals_default.
+(** an exception of block_mapping passes through the default-argument transfer unchanged *)
+Theorem incon_transfer_default_propagates_mapping_error : forall nearest sinc src geo e,
+  block_mapping nearest src geo = Raise e -> incon_transfer nearest None sinc src geo = Raise e.
+Proof. exact incon_default_raises. Qed.
+Print Assumptions incon_transfer_default_propagates_mapping_error.
+Theorem incon_transfer_explicit_equals_default_example :
+  exists mc new, block_mapping nearest_exec (src_of Atm1) (dst_of Atm1) = Ok mc /\
+    incon_transfer nearest_exec (Some mc) sinc1 (src_of Atm1) (dst_of Atm1) = Ok new /\
+    incon_transfer nearest_exec None sinc1 (src_of Atm1) (dst_of Atm1) = Ok new.
+Proof. exact glue_hyps_sat. Qed.
+Print Assumptions incon_transfer_explicit_equals_default_example.
